@@ -5,7 +5,8 @@
    Float64 variants of one JS number are identified - `normal_form_is_js_equality` shows nothing else is);
    `wf` is the representation invariant; `R s a` relates a storage to the abstract ascending association list. *)
 From Coq Require Import NArith ZArith List Bool.
-From C14 Require Import Indexed ArraySpec ProofsA_C14 ProofsB_C14 ProofsC_C14 ProofsD_C14.
+From C14 Require Import Indexed ArraySpec ProofsA_C14 ProofsB_C14 ProofsC_C14 ProofsD_C14
+     Deep1_C14 Deep2_C14 Deep3_C14 Deep4_C14 Deep5_C14 Deep7_C14 Deep6_C14.
 Import ListNotations.
 Local Open Scope N_scope.
 
@@ -283,6 +284,59 @@ Proof. exact istep_generic. Qed.
 Check istep_is_generic_outside_fast_paths : forall o s m,
   match o with OSet _ _ | OGet _ | OShift => True | _ => istep o s m = run_i (op_prog Boa o) s m end.
 Print Assumptions istep_is_generic_outside_fast_paths.
+
+(* ---- deepening round: implementation-model histories = specification histories ---- *)
+
+(* `op_wf o` : index arguments are array indices (<= 2^32 - 2) and Integer32 values written to `length` are int32s -
+   what the engine can be handed; it excludes no operation of ArraySpec.v.
+   `I0 kd s m` : kind kd, representation invariant, length <= 2^32 - 1, and for arrays: every element index is
+   below `length` and `length` holds the canonical number. *)
+
+(* every operation runs identically in boa's flavour (template-shape define shortcut, Array::set_length slot store) and
+   in the ECMA-262 flavour - same completion, same storage, same meta state - and keeps the invariant: proved through
+   every loop of push pop shift unshift splice reverse fill copyWithin, the descending delete loop of ArraySetLength
+   (length writes, defineProperty on length) and SetIntegrityLevel (freeze / seal), each by induction on its length *)
+Theorem ops_flavours_agree_and_keep_invariant : forall kd o, op_wf o = true ->
+  forall s m, I0 kd s m ->
+    run_i (op_prog Boa o) s m = run_i (op_prog Spec o) s m /\
+    I0 kd (st_of (run_i (op_prog Spec o) s m)) (mt_of (run_i (op_prog Spec o) s m)).
+Proof. exact ok_op. Qed.
+Check ops_flavours_agree_and_keep_invariant : forall kd o, op_wf o = true ->
+  forall s m, I0 kd s m ->
+    run_i (op_prog Boa o) s m = run_i (op_prog Spec o) s m /\
+    I0 kd (st_of (run_i (op_prog Spec o) s m)) (mt_of (run_i (op_prog Spec o) s m)).
+Print Assumptions ops_flavours_agree_and_keep_invariant.
+
+(* ArraySetLength keeps the array invariant for every descriptor without accessor fields (the delete loop stops at
+   the first non-configurable element and re-defines the length to its index + 1, which is shown to succeed) *)
+Theorem array_set_length_keeps_invariant : forall s m p, AInv s m -> noacc p ->
+  (match p_value p with Some v => wfv v | None => True end) ->
+  AInv (st_of (run_i (array_set_length p) s m)) (mt_of (run_i (array_set_length p) s m)).
+Proof. exact asl_AInv. Qed.
+Check array_set_length_keeps_invariant : forall s m p, AInv s m -> noacc p ->
+  (match p_value p with Some v => wfv v | None => True end) ->
+  AInv (st_of (run_i (array_set_length p) s m)) (mt_of (run_i (array_set_length p) s m)).
+Print Assumptions array_set_length_keeps_invariant.
+
+(* the implementation model `irun` (boa's flavour + the by-value get / set and shift fast paths, on boa's storage in
+   whatever form) and the specification run `srun` (ECMA-262 flavour on the abstract array-like) give the same
+   observation after every step of every history: "implementation-model histories equal spec histories" *)
+Theorem histories_impl_eq_spec : forall kd ops s a m,
+  R s a -> I0 kd s m -> forallb op_wf ops = true -> irun ops s m = srun ops a m.
+Proof. exact histories_impl_eq_spec_lemma. Qed.
+Check histories_impl_eq_spec : forall kd ops s a m,
+  R s a -> I0 kd s m -> forallb op_wf ops = true -> irun ops s m = srun ops a m.
+Print Assumptions histories_impl_eq_spec.
+
+(* ... from the initial states the check uses: an array literal and the equivalent plain array-like *)
+Theorem histories_from_initial_states : forall l ops, elems_wf l -> len l <= U32 -> forallb op_wf ops = true ->
+  irun ops (fst (init_array_i l)) (snd (init_array_i l)) = srun ops (fst (init_a KArray l)) (snd (init_a KArray l)) /\
+  irun ops (fst (init_plain_i l)) (snd (init_plain_i l)) = srun ops (fst (init_a KPlain l)) (snd (init_a KPlain l)).
+Proof. exact histories_from_literal. Qed.
+Check histories_from_initial_states : forall l ops, elems_wf l -> len l <= U32 -> forallb op_wf ops = true ->
+  irun ops (fst (init_array_i l)) (snd (init_array_i l)) = srun ops (fst (init_a KArray l)) (snd (init_a KArray l)) /\
+  irun ops (fst (init_plain_i l)) (snd (init_plain_i l)) = srun ops (fst (init_a KPlain l)) (snd (init_a KPlain l)).
+Print Assumptions histories_from_initial_states.
 
 (* ---- the hypotheses are satisfiable, the forms are reachable ---- *)
 
